@@ -524,7 +524,7 @@ def run(tier, seed, t0):
     for nm, fn in jobs + [("c18_response", response_table), ("c18_syntax", syntax_table)]:
         try:
             fn(e3)
-        except sym.Unsupported as ex:
+        except _e3.ENC_ERRORS as ex:
             e3.error(nm, "MIR->SMT encoding", ex)
     finish("C18", tier, seed, list(e3.res.obligations), t0, ASSUME + ["E3 callee models: " + ", ".join(sorted(e3.models))], sorted(e3.functions),
            explanation="MIR->SMT decision tables of the allowlist check and of the request handler's generated state machine")
